@@ -195,6 +195,38 @@ func parts(t types.Type, pkg *types.Package) []string {
 	return nil
 }
 
+// throughMap reports whether e selects through a map element (m[k], m[k].f).
+func throughMap(info *types.Info, e ast.Expr) bool {
+	found := false
+	ast.Inspect(e, func(n ast.Node) bool {
+		if ix, ok := n.(*ast.IndexExpr); ok {
+			if tv, ok := info.Types[ix.X]; ok && tv.Type != nil {
+				if _, isMap := tv.Type.Underlying().(*types.Map); isMap {
+					found = true
+				}
+			}
+		}
+		return !found
+	})
+	return found
+}
+
+// mentions reports whether expression e uses the name that l (an identifier) declares.
+func mentions(e ast.Expr, l ast.Expr) bool {
+	id, ok := l.(*ast.Ident)
+	if !ok {
+		return false
+	}
+	found := false
+	ast.Inspect(e, func(n ast.Node) bool {
+		if x, ok := n.(*ast.Ident); ok && x.Name == id.Name {
+			found = true
+		}
+		return !found
+	})
+	return found
+}
+
 // tear rewrites the multi-word copy `L = R` / `c := R` (a struct or small
 // array) into part-wise copies with yields in between. Single-threaded
 // semantics are preserved: every read of R completes before the first store
@@ -218,6 +250,17 @@ func (in *instr) tear(f *ast.File, src []byte, as *ast.AssignStmt, fn string) bo
 	}
 	if as.Tok == token.ASSIGN && !pureExpr(L) {
 		return false
+	}
+	if as.Tok == token.ASSIGN {
+		// the parts of L must be assignable one by one: L has the very type of R
+		// (not an interface holding it) and is not an element of a map
+		lt, ok := info.Types[L]
+		if !ok || lt.Type == nil || !types.Identical(lt.Type, tv.Type) || throughMap(info, L) {
+			return false
+		}
+	}
+	if as.Tok == token.DEFINE && mentions(R, L) {
+		return false // c := *c: after the definition the name means the copy
 	}
 	text := func(n ast.Node) string { return string(src[in.tf.Offset(n.Pos()):in.tf.Offset(n.End())]) }
 	lt, rt := text(L), "("+text(R)+")"
@@ -279,7 +322,7 @@ func (in *instr) hoistIfInit(f *ast.File, src []byte, is *ast.IfStmt, fn string)
 	var b strings.Builder
 	kind := "ifinit"
 	var torn []string
-	if as, ok := is.Init.(*ast.AssignStmt); ok && typeInfo[f] != nil && as.Tok == token.DEFINE && len(as.Lhs) == 1 && len(as.Rhs) == 1 && pureExpr(as.Rhs[0]) {
+	if as, ok := is.Init.(*ast.AssignStmt); ok && typeInfo[f] != nil && as.Tok == token.DEFINE && len(as.Lhs) == 1 && len(as.Rhs) == 1 && pureExpr(as.Rhs[0]) && !mentions(as.Rhs[0], as.Lhs[0]) {
 		if tv, ok := typeInfo[f].Types[as.Rhs[0]]; ok && tv.Type != nil {
 			if ps := parts(tv.Type, typePkg[f]); ps != nil {
 				text := func(n ast.Node) string { return string(src[in.tf.Offset(n.Pos()):in.tf.Offset(n.End())]) }
